@@ -741,6 +741,15 @@ def _restore_targets(owner, lfn, var, rel):
                     n += 1
                 elif b.id in foreign:
                     bad.append(f"line {st.lineno}: `{U(st)[:80]}` stores on `{b.id}` (the archive / an argument), not on the rebuilt object `{var}`")
+    # ... and what was restored is not edited afterwards: no in-place re-ordering / trimming of a restored attribute
+    for st in ast.walk(lfn):
+        if isinstance(st, ast.Expr) and isinstance(st.value, ast.Call) and isinstance(st.value.func, ast.Attribute) \
+                and st.value.func.attr in ("sort", "reverse", "pop", "remove", "clear", "insert", "shuffle", "resize", "fill"):
+            b = st.value.func.value
+            while isinstance(b, (ast.Attribute, ast.Subscript)):
+                b = b.value
+            if isinstance(b, ast.Name) and b.id == var and isinstance(st.value.func.value, ast.Attribute):
+                bad.append(f"line {st.lineno}: `{U(st)[:80]}` edits a restored attribute in place: the reloaded object differs from the saved one")
     return struct_ob("restore-target", owner, not bad and n > 0, "; ".join(bad[:2]) or "no attribute restored on the rebuilt object", rel, lfn.lineno,
                      slots={"stores_on_rebuilt_object": n}, tier="E")
 
@@ -889,8 +898,13 @@ def _save_writes(owner, sfn, rel):
                 dt = x.args[0]
             if dt is not None and U(dt) not in WIDE_:
                 narrow.append(f"line {x.lineno}: `{U(x)[:70]}`")
+            # ... or a function that changes values / shape / order of what is held (rounding, squeezing away an axis, sorting)
+            nm_ = U(x.func).split(".")[-1]
+            if nm_ in ("round", "around", "round_", "rint", "floor", "ceil", "trunc", "clip", "unique", "squeeze", "sort", "sorted", "ravel", "flatten") \
+                    and any(isinstance(y, ast.Attribute) and isinstance(y.value, ast.Name) and y.value.id == sfn.args.args[0].arg for y in ast.walk(x)):
+                narrow.append(f"line {x.lineno}: `{U(x)[:70]}`")
     if narrow:
-        return struct_ob("save-writes", owner, False, "the saved values are converted to a type that does not hold them exactly: " + "; ".join(narrow[:2])
+        return struct_ob("save-writes", owner, False, "the saved values are converted (type, rounding, shape, order) on the way into the archive: " + "; ".join(narrow[:2])
                          + " - the reloaded sampler continues from other numbers", rel, sfn.lineno, slots={"writer_calls": n}, tier="E")
     return struct_ob("save-writes", owner, done and not leak, "a path through save ends without writing the archive "
                      "(one arm of a branch has no savez / savez_compressed call, or a return comes first)", rel, sfn.lineno,
